@@ -22,6 +22,7 @@ def run(ctx):
                         "'most recent frame' is read as 'most recent frame carrying a message'",
                         "the table is used only inside decode (checked: C18-R2)"]
     res.not_decided += ["allocator-level memory", "the pending-byte bound as arithmetic (only: growth happens where a copy of the same length follows)"]
+    D.rule_segtype_subject(res, "C17-R1", m)
     n = D.rule_loop_typestate(res, "C17-R1", m)
     D.rule_accept_guard(res, "C17-R1A", m)
     D.rule_default_entry_rejected(res, "C17-R1L", m)
